@@ -110,10 +110,10 @@ def rule_r1(ctx: Ctx) -> None:
 
 def rule_r2(ctx: Ctx, a: Automaton) -> None:
     ctx.rule("C17.R2", "a pending attribute is committed on its own line or inside a handler that re-attributes errors to the line captured when it was queued; that line is written exactly where attributes are queued", min_instances=2)
-    bad = [c for c in a.commits if c["age"] > 0 and not c["protected"]]
+    bad = [c for c in a.commits if c["age"] > 0 and not (c["protected"] and c["capok"])]
     ctx.count(len(a.commits))
     distinct = sorted({(c["where"], c["context"].split(" line=")[1] if " line=" in c["context"] else c["context"]) for c in bad})
-    ctx.check(not bad, "_parser._ParseTreeProcessor._flush_comment", "deferred commits on a later line are re-attributed (%d commit executions explored)" % len(a.commits), "an error raised by the lazily committed attribute must carry the attribute's own line, not the line reached by the parser", "", [{"commit_at": w, "line_shape": c} for w, c in distinct[:4]] + ([{"unprotected_late_commits": len(bad)}] if bad else []))
+    ctx.check(not bad, "_parser._ParseTreeProcessor._flush_comment", "deferred commits on a later line are re-attributed (%d commit executions explored)" % len(a.commits), "an error raised by the lazily committed attribute must carry the attribute's own line, not the line reached by the parser", "", [{"commit_at": w, "line_shape": c} for w, c in distinct[:4]] + ([{"late_commits_without_a_valid_captured_line": len(bad), "handler_present": any(c["protected"] for c in bad), "captured_line_stale": any(c["protected"] and not c["capok"] for c in bad)}] if bad else []))
     # the captured line variable: which attribute is used by the relabelling handler, and who writes it
     pt = a.parser
     captured: Set[str] = set()
@@ -140,7 +140,7 @@ def rule_r2(ctx: Ctx, a: Automaton) -> None:
                     writers[name] = norm(st.value)
     from ..typestate import Interp
 
-    queueing = sorted(m for m in pt.methods if m.startswith("visit_statement_") and any(e.kind == "QUEUE" for _, eff in Interp(a.pl).run_method(pt, m, (False, False, 0)) for e in eff))
+    queueing = sorted(m for m in pt.methods if m.startswith("visit_statement_") and any(e.kind == "QUEUE" for _, eff in Interp(a.pl).run_method(pt, m, (False, False, 0, False)) for e in eff))
     want_writers = set(queueing) | {"__init__"}
     from .c03 import may_contain
 
